@@ -18,7 +18,7 @@ MANIFEST = dict(
          "(C16's regenerated call-site table). Tie: differential correspondence on the FULL real stack (GeckoAsyncSpaMan + locator + spa + facade on the virtual loop, "
          "peer = the real simulator extended to apply writes / key presses and echo through its own report_changes): predicted emissions vs datagrams decoded by the real "
          "handlers; threaded twins on a stub spa. Search monitors: datagram count, pack type / versions / sequence range, state after echo, second command silent."
-         ' Since session 3: watercare_command_survives_polls (Model/WatercareRace.lean: one async_set_mode whose statement order is GENERATED, any number of facade polls, the protocol lock, any scheduler: once the command has returned spa and client both hold the requested mode) with the counterexample for the optimistic order; the real stack is exercised with a spa that holds its watercare answers, and with devices switched at the spa between facade commands. Session 4: a LONG session on one connection (140 pack commands, more than two cycles of the command sequence numbers): each still one well-formed in-range command, applied and read back. Session 4: a long session on the blocking client too (real GeckoSpa, real pump and switch classes, 150 commands decoded by the real SPACK decoder, stored and echoed). Also: a command issued while another exchange holds the connection for longer than a request timeout goes out exactly once. Session 5: every_plain_command_gets_its_task (AsyncTasks.add_task creates a task on every normal end, no test); two commands issued back to back through the facade\'s plain (non-awaitable) entry points are two command datagrams and both read back.',
+         ' Since session 3: watercare_command_survives_polls (Model/WatercareRace.lean: one async_set_mode whose statement order is GENERATED, any number of facade polls, the protocol lock, any scheduler: once the command has returned spa and client both hold the requested mode) with the counterexample for the optimistic order; the real stack is exercised with a spa that holds its watercare answers, and with devices switched at the spa between facade commands. Session 4: a LONG session on one connection (140 pack commands, more than two cycles of the command sequence numbers): each still one well-formed in-range command, applied and read back. Session 4: a long session on the blocking client too (real GeckoSpa, real pump and switch classes, 150 commands decoded by the real SPACK decoder, stored and echoed). Also: a command issued while another exchange holds the connection for longer than a request timeout goes out exactly once. Session 5: every_plain_command_gets_its_task (AsyncTasks.add_task creates a task on every normal end, no test); two commands issued back to back through the facade\'s plain (non-awaitable) entry points are two command datagrams and both read back. Round 14: pending_report_scenarios (the spa\'s report of an applied change held back: change of mind, two writes behind a slow exchange); known finding D17 (lost update between bit fields of one word).',
     note="The spa's reaction (store + echo; key press toggles the device behind the key) is the assumption the property prescribes, implemented by the harness peer and as "
          "definitions in the model. Target temperature conversion is C14's. Trusted: Lean kernel, translator for the tables, the harness.",
     technique="Lean 4 proofs by composition of C02/C05/C16 theorems + induction over command sequences; differential correspondence on the full real stack",
@@ -37,9 +37,16 @@ def model_spa_class():
         commands = []     # decoded commands as received
         wc_mode = 1
 
+        hold_echo = False     # the spa's REPORT of a change it applied is late (it acknowledges the command at once)
+        held_echo = []
+
         def _echo(self, changes, sender):
             for client in self._clients or [sender]:
-                self._socket.queue_send(GeckoPartialStatusBlockProtocolHandler.report_changes(self._socket, changes, parms=client), client)
+                h = GeckoPartialStatusBlockProtocolHandler.report_changes(self._socket, changes, parms=client)
+                if self.hold_echo:
+                    self.held_echo.append(h)
+                else:
+                    self._socket.queue_send(h, client)
 
         def _on_pack_command(self, handler, sender):
             self._socket.queue_send(GeckoPackCommandProtocolHandler.response(parms=sender), sender)
@@ -90,6 +97,8 @@ def connect_stack(loop, snapshot):
     cls.commands = []
     cls.held = []
     cls.hold_wc = False
+    cls.hold_echo = False
+    cls.held_echo = []
     sim = fakenet.make_sim(snapshot, cls)
     net = fakenet.Network(loop, sim)
     loop.network = net
@@ -107,6 +116,132 @@ def connect_stack(loop, snapshot):
     sim._socket.dispatch_recevied_data = dispatch
     man = Man("uuid-1", spa_identifier=IDENT, spa_address="10.0.0.9", spa_name="Spa")
     return man, sim, net
+
+
+def pending_report_scenarios(ctx, snapshot, prefix, with_shared_word=True):
+    """the REAL client path (manager -> `_connect` -> facade -> accessor -> the spa's set-value callback -> protocol) against the model spa,
+    for orders of events a direct call of the accessor never meets:
+      (a) change of mind: a setting is written, and written BACK to what the client still shows, before the spa has reported the first
+          write (the client's copy of the block is only a mirror: it changes when the report arrives) - both commands must reach the
+          spa, which ends up with the LAST value written, and the client reads that back;
+      (b) two writes of different items issued together while another exchange holds the connection: each reaches the spa as computed.
+    Violations are recorded under `prefix` (the calling property)."""
+    name = os.path.basename(snapshot)
+    out = {}
+    import geckolib.config as gcfg
+
+    async def body(loop):
+        man, sim, net = connect_stack(loop, snapshot)
+        async with man:
+            for _ in range(600):
+                await asyncio.sleep(0.1)
+                if man.facade is not None:
+                    break
+            if man.facade is None:
+                out["connected"] = False
+                return
+            out["connected"] = True
+            fac, spa = man.facade, man.facade.spa
+            await settle(2.0)
+
+            def release_reports():
+                live = [x for x in net.transports if not x.closed]
+                for h in sim.held_echo:
+                    if live:
+                        net.push(live[-1], h.send_bytes)
+                del sim.held_echo[:]
+            # ---- (a) the heater's set point, and one enumerated user demand
+            wh = fac.water_heater
+            cases = []
+            if wh is not None and wh.is_present:
+                t0 = wh.target_temperature
+                t1 = t0 + 1 if t0 + 1 <= wh.max_temp else t0 - 1
+                cases.append(("setpoint", lambda v: wh.async_set_target_temperature(v), lambda: wh.target_temperature, t0, t1,
+                              spa.accessors["SetpointG"]))
+            for p_ in fac.pumps:
+                ms_ = [m_ for m_ in p_.modes if m_]
+                a_ = spa.accessors[p_._user_demand["demand"]]
+                if len(ms_) >= 2 and a_.read_write is not None:
+                    v0 = a_.value
+                    v1 = ms_[0] if v0 != ms_[0] else ms_[1]
+                    cases.append((p_.key, lambda v, pp=p_: pp.async_set_mode(v), lambda aa=a_: aa.value, v0, v1, a_))
+                    break
+            for label, write, read, v0, v1, acc in cases:
+                n0 = len(sim.commands)
+                sim.hold_echo = True
+                errs = []
+                for v in (v1, v0):
+                    try:
+                        await asyncio.wait_for(write(v), 60)
+                    except Exception as e:  # noqa
+                        errs.append(f"{type(e).__name__}: {e}")
+                    await asyncio.sleep(0.2)
+                sim.hold_echo = False
+                release_reports()
+                await settle(2.0)
+                sent = [c for c in sim.commands[n0:] if c.get("kind") == "set"]
+                ctx.count("evaluations")
+                ctx.hist("pending_report_scenarios", f"change-of-mind:{label}")
+                sim_acc = sim.structure.accessors[acc.tag]
+                if errs or len(sent) != 2 or sim_acc.raw_value != acc.raw_value or read() != v0:
+                    ctx.violation(f"{prefix}:change-of-mind:{label}", {"kind": "pending-report", "snapshot": name, "item": label, "written": [str(v1), str(v0)]},
+                                  {"set-value commands at the spa": 2, "spa and client read": str(v0)},
+                                  {"errors": errs, "set-value commands at the spa": len(sent), "spa raw": sim_acc.raw_value, "client raw": acc.raw_value, "client reads": str(read())})
+            # ---- (b) two writes of different items behind a slow exchange
+            uds = [a for a in spa.accessors.values() if a.read_write is not None and a.type == "Enum" and a.items and len([x for x in a.items if x]) >= 2
+                   and a.tag.startswith("Ud")]
+
+            def overlap(a, b):
+                return not (a.pos + a.length <= b.pos or b.pos + b.length <= a.pos)
+            disjoint = next(((a, b) for i, a in enumerate(uds) for b in uds[i + 1:] if not overlap(a, b)), None)
+            shared = next(((a, b) for i, a in enumerate(uds) for b in uds[i + 1:] if overlap(a, b)), None)
+            for variant, ws in (("two-writes-behind-a-slow-exchange", disjoint), ("lost-update-in-shared-word", shared if with_shared_word else None)):
+              if ws is not None:
+                ws = list(ws)
+                sim.hold_wc = True
+                del sim.held[:]
+                for _ in range(80):
+                    if sim.held:
+                        break
+                    try:
+                        gcfg.set_config_mode(gcfg.GeckoConfig.PING_FREQUENCY_IN_SECONDS == gcfg._GeckoActiveConfig.PING_FREQUENCY_IN_SECONDS)
+                    except Exception:  # noqa
+                        pass
+                    await asyncio.sleep(0.1)
+                if sim.held:
+                    n0 = len(sim.commands)
+                    wants = []
+                    for a in ws:
+                        labs = [x for x in a.items if x]
+                        wants.append(labs[0] if a.value != labs[0] else labs[1])
+                    ts = [asyncio.ensure_future(a.async_set_value(w)) for a, w in zip(ws, wants)]
+                    await asyncio.sleep(1.0)
+                    sim.hold_wc = False
+                    live = [x for x in net.transports if not x.closed]
+                    for hdl in sim.held:
+                        if live:
+                            net.push(live[-1], hdl.send_bytes)
+                    del sim.held[:]
+                    errs = []
+                    for t in ts:
+                        try:
+                            await asyncio.wait_for(t, 120)
+                        except Exception as e:  # noqa
+                            errs.append(f"{type(e).__name__}: {e}")
+                    await settle(2.0)
+                    sent = [(c["pos"], len(c["data"])) for c in sim.commands[n0:] if c.get("kind") == "set"]
+                    ctx.count("evaluations")
+                    ctx.hist("pending_report_scenarios", variant)
+                    got = [str(a.value) for a in ws]
+                    if errs or sent != [(a.pos, a.length) for a in ws] or got != [str(w) for w in wants]:
+                        ctx.violation(f"{prefix}:{variant}", {"kind": "pending-report", "snapshot": name, "items": [a.tag for a in ws]},
+                                      {"writes at the spa (pos, length)": [[a.pos, a.length] for a in ws], "read back": [str(w) for w in wants]},
+                                      {"errors": errs, "writes at the spa (pos, length)": [list(x) for x in sent], "read back": got})
+                else:
+                    sim.hold_wc = False
+                    ctx.hist("pending_report_scenarios", "two-writes:poll-not-seen")
+    vloop.run_virtual(body, seed=1, stable=True)
+    return out
 
 
 async def settle(t=1.0):
@@ -641,6 +776,11 @@ def run(ctx):
     if not ctx.quick:
         chosen = snaps
     lines, impl_ans = [], []
+    for sn_ in [s for s in chosen if os.path.basename(s).startswith(("default", "inYT-Pump1Hi"))] or chosen[:1]:
+        try:
+            pending_report_scenarios(ctx, sn_, "pending-report")
+        except Exception as e:  # noqa
+            ctx.violation(f"pending-report:raised:{os.path.basename(sn_)}", {"kind": "pending-report", "snapshot": os.path.basename(sn_)}, "the scenario runs", f"{type(e).__name__}: {e}")
     nontrivial = set()
     built = 0
     longest = 0
@@ -691,6 +831,12 @@ def run(ctx):
 
 
 def replay(inp):
+    if inp.get("kind") == "pending-report":
+        from common import Ctx
+        c = Ctx("C13", "quick", 0)
+        sn = [s for s in glob.glob(str(REPO / "tests" / "snapshots" / "*.snapshot")) if os.path.basename(s) == inp["snapshot"]][0]
+        pending_report_scenarios(c, sn, "pending-report")
+        return bool(c.violations), c.violations[0]["observed"] if c.violations else "both scenarios hold"
     import random
     from common import Ctx
     ctx = Ctx("C13", "quick", 0)
